@@ -174,11 +174,11 @@ def harnesses(tier, seed):
     seqs = [s for L in (1, 2) for s in itertools.product(os_kinds, repeat=L)]
     l3 = list(itertools.product(os_kinds, repeat=3))
     rng.shuffle(l3)
-    seqs += l3[:30] if tier == "quick" else l3
+    seqs += l3[:30] if tier == "quick" else l3[:250]
     if tier == "thorough":
         l4 = list(itertools.product(os_kinds, repeat=4))
         rng.shuffle(l4)
-        seqs += l4[:600]
+        seqs += l4[:150]
     for i, s in enumerate(seqs):
         hs.append(os_harness(i, s))
     # UHeap: op sequences over 3 items
@@ -192,7 +192,7 @@ def harnesses(tier, seed):
         l3u = [s for s in useqs if len(s) == 3]
         rng.shuffle(l3u)
         useqs = [s for s in useqs if len(s) == 2] + l3u[:40]
-    useqs += (l4[:25] + l5[:15]) if tier == "quick" else (l4 + l5[:800])
+    useqs += (l4[:25] + l5[:15]) if tier == "quick" else (l4[:200] + l5[:150])
     for i, s in enumerate(useqs):
         hs.append(uh_harness(i, s))
     bv_kinds = list(BV_OPS)
@@ -203,7 +203,7 @@ def harnesses(tier, seed):
         b2 = [s for s in bseqs if len(s) == 2]
         rng.shuffle(b2)
         bseqs = [s for s in bseqs if len(s) == 1] + b2[:25]
-    bseqs += b3[:8] if tier == "quick" else b3
+    bseqs += b3[:8] if tier == "quick" else b3[:200]
     for i, s in enumerate(bseqs):
         hs.append(bv_harness(i, s, selector=True))
     # raw index range [0,70) for single operations (symbolic shifts are expensive for CrossHair)
